@@ -11,7 +11,7 @@
 //   B <label> v v v ...        output vector of the second run (same labels, same order)
 //   END
 //
-// classes (k mod 11):
+// classes (k mod 12):
 //   route-twice            libavoid scene (polyline / orthogonal) built and routed twice; route() and
 //                          displayRoute() of every connector, also after a shape move + reroute
 //   vpsc-twice             vpsc::IncSolver and vpsc::Solver on the same problem twice
@@ -24,6 +24,9 @@
 //                          their own tag because their display routes are nudged)
 //   route-symmetry         the 8 symmetries of the square: route COST must not change
 //   vpsc-translate, vpsc-permute
+//   route-symmetry-dirs    orthogonal scenes with direction-restricted ends (free ends, ends on the outer edge of the scene
+//                          looking outward, pins on shape sides), ConnDirFlags transformed with the frame: cost and
+//                          axis-parallelism must not change
 //   (two extra slots repeat route-twice / route-symmetry with the other connector type)
 //
 // Library assertions: built with -DUSE_ASSERT_EXCEPTIONS (check/props/C20.py), so a failed COLA_ASSERT throws
@@ -125,7 +128,7 @@ static void pushBorders(Out &o) {
 
 // ------------------------------------------------------------------------------------ routing scenes
 struct R4 { double x0, y0, x1, y1; };
-struct Cn { double sx, sy, tx, ty; };
+struct Cn { double sx, sy, tx, ty; unsigned sdir = 15, tdir = 15; int spin = -1, tpin = -1; };   // dirs = Avoid::ConnDirFlags; pin = shape index (end is a pin at (x,y) on that shape's side) or -1
 struct RScene {
     std::vector<R4> rects;
     std::vector<Cn> conns;
@@ -189,8 +192,19 @@ static void applySym(int sym, double x, double y, double &ox, double &oy) {
     default: ox = -y; oy = -x; break;
     }
 }
+// ConnDirFlags (Up=1: -y, Down=2: +y, Left=4: -x, Right=8: +x) under a symmetry
+static unsigned symDirs(int sym, unsigned dirs) {
+    static const double vx[4] = {0, 0, -1, 1}, vy[4] = {-1, 1, 0, 0};
+    unsigned out = 0;
+    for (int i = 0; i < 4; ++i) if (dirs & (1u << i)) {
+        double x, y; applySym(sym, vx[i], vy[i], x, y);
+        if (y < 0) out |= 1; if (y > 0) out |= 2; if (x < 0) out |= 4; if (x > 0) out |= 8;
+    }
+    return out;
+}
 static RScene frameScene(const RScene &s, int sym, double tx, double ty) {
     RScene t = s;
+    for (size_t i = 0; i < s.conns.size(); ++i) { t.conns[i].sdir = symDirs(sym, s.conns[i].sdir); t.conns[i].tdir = symDirs(sym, s.conns[i].tdir); }
     for (size_t i = 0; i < s.rects.size(); ++i) {
         double ax, ay, bx, by;
         applySym(sym, s.rects[i].x0, s.rects[i].y0, ax, ay);
@@ -213,6 +227,9 @@ static void printScene(const RScene &s) {
         printf("rect %s %s %s %s\n", H(s.rects[i].x0).c_str(), H(s.rects[i].y0).c_str(), H(s.rects[i].x1).c_str(), H(s.rects[i].y1).c_str());
     for (size_t i = 0; i < s.conns.size(); ++i)
         printf("conn %s %s %s %s\n", H(s.conns[i].sx).c_str(), H(s.conns[i].sy).c_str(), H(s.conns[i].tx).c_str(), H(s.conns[i].ty).c_str());
+    for (size_t i = 0; i < s.conns.size(); ++i)
+        if (s.conns[i].sdir != 15 || s.conns[i].tdir != 15 || s.conns[i].spin >= 0 || s.conns[i].tpin >= 0)
+            printf("cdir %zu %u %u %d %d\n", i, s.conns[i].sdir, s.conns[i].tdir, s.conns[i].spin, s.conns[i].tpin);
     if (s.moveIdx >= 0) printf("move %d %s %s\n", s.moveIdx, H(s.mdx).c_str(), H(s.mdy).c_str());
 }
 
@@ -232,9 +249,21 @@ static Out routeScene(const RScene &s, Avoid::Router **keepAlive = nullptr) {
         shapes.push_back(new Avoid::ShapeRef(router, poly));
     }
     std::vector<Avoid::ConnRef *> conns;
-    for (size_t i = 0; i < s.conns.size(); ++i)
-        conns.push_back(new Avoid::ConnRef(router, Avoid::ConnEnd(Avoid::Point(s.conns[i].sx, s.conns[i].sy)),
-                                           Avoid::ConnEnd(Avoid::Point(s.conns[i].tx, s.conns[i].ty))));
+    unsigned pinClass = 1;
+    auto mkEnd = [&](double x, double y, unsigned dirs, int pin) -> Avoid::ConnEnd {
+        if (pin < 0 || pin >= (int) shapes.size()) return Avoid::ConnEnd(Avoid::Point(x, y), (Avoid::ConnDirFlags) dirs);
+        // a pin at (x, y) on the boundary of shape `pin`: proportional offsets (0, 1/2 or 1: exact), no inside offset
+        const R4 &q = s.rects[pin];
+        double xo = (x - q.x0) / (q.x1 - q.x0), yo = (y - q.y0) / (q.y1 - q.y0);
+        unsigned cls = pinClass++;
+        new Avoid::ShapeConnectionPin(shapes[pin], cls, xo, yo, true, 0.0, (Avoid::ConnDirFlags) dirs);
+        return Avoid::ConnEnd(shapes[pin], cls);
+    };
+    for (size_t i = 0; i < s.conns.size(); ++i) {
+        Avoid::ConnEnd se = mkEnd(s.conns[i].sx, s.conns[i].sy, s.conns[i].sdir, s.conns[i].spin);
+        Avoid::ConnEnd te = mkEnd(s.conns[i].tx, s.conns[i].ty, s.conns[i].tdir, s.conns[i].tpin);
+        conns.push_back(new Avoid::ConnRef(router, se, te));
+    }
     char lab[64];
     bool failed = false;
     auto guarded = [&](const char *stage) {
@@ -427,6 +456,156 @@ static void caseRouteSymmetry(long k, vh::Rng &r, bool orth) {
         }
         fflush(stdout);
     }
+    vh::endCase();
+}
+
+// orthogonal scenes with DIRECTION-RESTRICTED connector ends: free ends with 1-3 allowed directions, ends at the
+// extreme min/max x or y of the whole scene looking outward (libavoid documents extra sideways visibility for
+// those: fixConnectionPointVisibilityOnOutsideOfVisibilityGraph), pins at side midpoints of shapes (buffer 0),
+// in particular on the side that is the scene boundary.  The flags are transformed with the coordinates.
+static void emitSymmetryRuns(const RScene &s);
+
+// STRICT sub-class (tag route-symmetry-dirs): exactly one restricted end per scene, in one of the two configurations
+// libavoid documents extra visibility for:
+//  (a) a free end at the extreme min/max x or y of EVERYTHING in the scene (or 1-2 units beyond), allowed to leave only
+//      outwards; all other ends unrestricted;
+//  (b) a single connector whose source is a pin at the midpoint of the shape side that is the boundary of the whole
+//      scene (buffer 0), looking out of that side; its target is clamped into the bounding box of the shapes.
+static void caseRouteSymmetryDirsStrict(long k, vh::Rng &r) {
+    vh::beginCase(k, "route-symmetry-dirs");
+    RScene s = genScene(r, true, 5, 3);
+    s.buf = 0;
+    int side = (int) r.range(0, 3);    // 0 top (min y), 1 bottom (max y), 2 left (min x), 3 right (max x)
+    static const unsigned outward[4] = {1, 2, 4, 8};
+    bool pin = !s.rects.empty() && r.coin(1, 3);
+    if (!pin) {
+        Cn &c = s.conns[0];
+        double x0 = c.tx, x1 = c.tx, y0 = c.ty, y1 = c.ty;
+        for (const R4 &q : s.rects) { x0 = std::min(x0, q.x0); y0 = std::min(y0, q.y0); x1 = std::max(x1, q.x1); y1 = std::max(y1, q.y1); }
+        for (size_t i = 1; i < s.conns.size(); ++i) {
+            const Cn &o = s.conns[i];
+            x0 = std::min(x0, std::min(o.sx, o.tx)); x1 = std::max(x1, std::max(o.sx, o.tx));
+            y0 = std::min(y0, std::min(o.sy, o.ty)); y1 = std::max(y1, std::max(o.sy, o.ty));
+        }
+        for (int tries = 0; tries < 20; ++tries) {
+            double beyond = (double) r.range(0, 2);
+            if (side == 0) { c.sy = y0 - beyond; c.sx = (double) r.range((long) x0, (long) x1); }
+            if (side == 1) { c.sy = y1 + beyond; c.sx = (double) r.range((long) x0, (long) x1); }
+            if (side == 2) { c.sx = x0 - beyond; c.sy = (double) r.range((long) y0, (long) y1); }
+            if (side == 3) { c.sx = x1 + beyond; c.sy = (double) r.range((long) y0, (long) y1); }
+            bool touches = false;          // not on / in a shape, not on the other end
+            for (const R4 &q : s.rects) if (c.sx >= q.x0 && c.sx <= q.x1 && c.sy >= q.y0 && c.sy <= q.y1) touches = true;
+            if (!touches && !(c.sx == c.tx && c.sy == c.ty)) break;
+            if (tries == 19) { if (side < 2) c.sy += (side == 0 ? -3 : 3); else c.sx += (side == 2 ? -3 : 3); }
+        }
+        c.sdir = outward[side];
+    } else {
+        int sh = 0;
+        for (size_t j = 0; j < s.rects.size(); ++j) {
+            const R4 &a = s.rects[j], &b = s.rects[sh];
+            if ((side == 0 && a.y0 < b.y0) || (side == 1 && a.y1 > b.y1) || (side == 2 && a.x0 < b.x0) || (side == 3 && a.x1 > b.x1)) sh = (int) j;
+        }
+        const R4 &q = s.rects[sh];
+        Cn c = s.conns[0];
+        if (side == 0) { c.sx = (q.x0 + q.x1) / 2; c.sy = q.y0; }
+        if (side == 1) { c.sx = (q.x0 + q.x1) / 2; c.sy = q.y1; }
+        if (side == 2) { c.sx = q.x0; c.sy = (q.y0 + q.y1) / 2; }
+        if (side == 3) { c.sx = q.x1; c.sy = (q.y0 + q.y1) / 2; }
+        c.sdir = outward[side]; c.spin = sh;
+        double x0 = 1e9, y0 = 1e9, x1 = -1e9, y1 = -1e9;
+        for (const R4 &t : s.rects) { x0 = std::min(x0, t.x0); y0 = std::min(y0, t.y0); x1 = std::max(x1, t.x1); y1 = std::max(y1, t.y1); }
+        c.tx = std::min(std::max(c.tx, x0), x1); c.ty = std::min(std::max(c.ty, y0), y1);
+        // keep the target off every shape (it may have been clamped onto a boundary): push it to a bbox corner otherwise
+        bool touches = false;
+        for (const R4 &t : s.rects) if (c.tx >= t.x0 && c.tx <= t.x1 && c.ty >= t.y0 && c.ty <= t.y1) touches = true;
+        if (touches || (c.sx == c.tx && c.sy == c.ty)) { c.tx = (side == 2 ? x1 : x0); c.ty = (side == 0 ? y1 : y0); }
+        touches = false;
+        for (const R4 &t : s.rects) if (c.tx >= t.x0 && c.tx <= t.x1 && c.ty >= t.y0 && c.ty <= t.y1) touches = true;
+        if (touches) { c.tx = x0 - 1; c.ty = y0 - 1; if (side == 0 || side == 2) { c.tx = x1 + 1; c.ty = y1 + 1; } c.spin = sh; }
+        s.conns.clear(); s.conns.push_back(c);
+    }
+    printScene(s);
+    fflush(stdout);
+    emitSymmetryRuns(s);
+    vh::endCase();
+}
+
+static void emitSymmetryRuns(const RScene &s) {
+    Out a = routeScene(s);
+    printOut("A", a); fflush(stdout);
+    for (int sym = 1; sym < 8; ++sym) {
+        Out b = routeScene(frameScene(s, sym, 0, 0));
+        for (size_t i = 0; i < b.size(); ++i) {
+            if (b[i].first.compare(0, 5, "route") != 0) continue;
+            printf("S %d %s", sym, b[i].first.c_str());
+            for (size_t j = 0; j < b[i].second.size(); ++j) printf(" %s", H(b[i].second[j]).c_str());
+            printf("\n");
+        }
+        fflush(stdout);
+    }
+}
+
+static void caseRouteSymmetryDirs(long k, vh::Rng &r, bool strict) {
+    if (strict) { caseRouteSymmetryDirsStrict(k, r); return; }
+    vh::beginCase(k, "route-symmetry-dirs-any");
+    RScene s = genScene(r, true, 5, 3);
+    s.buf = 0;
+    // scene extent (shapes and cell-border lines)
+    double lo = 0, hiX = 0, hiY = 0;
+    for (const R4 &q : s.rects) { hiX = std::max(hiX, q.x1); hiY = std::max(hiY, q.y1); }
+    for (const Cn &c : s.conns) { hiX = std::max(hiX, std::max(c.sx, c.tx)); hiY = std::max(hiY, std::max(c.sy, c.ty)); }
+    hiX = std::ceil(hiX); hiY = std::ceil(hiY);
+    for (size_t i = 0; i < s.conns.size(); ++i) {
+        Cn &c = s.conns[i];
+        int kind = (int) r.range(0, 5);
+        if (kind == 0) {                       // random restriction of both ends
+            c.sdir = (unsigned) r.range(1, 15); c.tdir = (unsigned) r.range(1, 15);
+        } else if (kind <= 2) {                // source at the extreme edge of the scene (or beyond), looking outward only
+            int side = (int) r.range(0, 3);    // 0 top (min y), 1 bottom (max y), 2 left, 3 right
+            double beyond = (double) r.range(0, 2);
+            if (side == 0) { c.sy = lo - beyond; c.sx = (double) r.range(0, (long) hiX); c.sdir = 1; }
+            if (side == 1) { c.sy = hiY + beyond; c.sx = (double) r.range(0, (long) hiX); c.sdir = 2; }
+            if (side == 2) { c.sx = lo - beyond; c.sy = (double) r.range(0, (long) hiY); c.sdir = 4; }
+            if (side == 3) { c.sx = hiX + beyond; c.sy = (double) r.range(0, (long) hiY); c.sdir = 8; }
+            if (r.coin(1, 3)) c.tdir = (unsigned) r.range(1, 15);
+        } else if (!s.rects.empty()) {         // source = pin at a side midpoint of a shape, looking out of that side
+            int sh = (int) r.range(0, (long) s.rects.size() - 1);
+            if (kind == 4) {                   // prefer the shape that reaches furthest down / right / up / left
+                int side = (int) r.range(0, 3);
+                for (size_t j = 0; j < s.rects.size(); ++j) {
+                    const R4 &a = s.rects[j], &b = s.rects[sh];
+                    if ((side == 0 && a.y0 < b.y0) || (side == 1 && a.y1 > b.y1) || (side == 2 && a.x0 < b.x0) || (side == 3 && a.x1 > b.x1)) sh = (int) j;
+                }
+                const R4 &q = s.rects[sh];
+                if (side == 0) { c.sx = (q.x0 + q.x1) / 2; c.sy = q.y0; c.sdir = 1; }
+                if (side == 1) { c.sx = (q.x0 + q.x1) / 2; c.sy = q.y1; c.sdir = 2; }
+                if (side == 2) { c.sx = q.x0; c.sy = (q.y0 + q.y1) / 2; c.sdir = 4; }
+                if (side == 3) { c.sx = q.x1; c.sy = (q.y0 + q.y1) / 2; c.sdir = 8; }
+            } else {
+                const R4 &q = s.rects[sh];
+                int side = (int) r.range(0, 3);
+                if (side == 0) { c.sx = (q.x0 + q.x1) / 2; c.sy = q.y0; c.sdir = 1; }
+                if (side == 1) { c.sx = (q.x0 + q.x1) / 2; c.sy = q.y1; c.sdir = 2; }
+                if (side == 2) { c.sx = q.x0; c.sy = (q.y0 + q.y1) / 2; c.sdir = 4; }
+                if (side == 3) { c.sx = q.x1; c.sy = (q.y0 + q.y1) / 2; c.sdir = 8; }
+            }
+            c.spin = sh;
+            if (kind == 4 && r.coin()) {
+                // make that shape side the boundary of the WHOLE scene: this connector only, target clamped into the
+                // bounding box of the shapes (stays on a cell-border line or on a shape boundary, never inside a shape)
+                double x0 = 1e9, y0 = 1e9, x1 = -1e9, y1 = -1e9;
+                for (const R4 &q : s.rects) { x0 = std::min(x0, q.x0); y0 = std::min(y0, q.y0); x1 = std::max(x1, q.x1); y1 = std::max(y1, q.y1); }
+                Cn only = c;
+                only.tx = std::min(std::max(only.tx, x0), x1); only.ty = std::min(std::max(only.ty, y0), y1);
+                if (only.sx == only.tx && only.sy == only.ty) { only.tdir = 15; only.tx = x0; only.ty = y0; }
+                if (!(only.sx == only.tx && only.sy == only.ty)) { s.conns.clear(); s.conns.push_back(only); break; }
+            }
+        }
+        if (c.sx == c.tx && c.sy == c.ty) c.tx += 1;
+    }
+    printScene(s);
+    fflush(stdout);
+    emitSymmetryRuns(s);
     vh::endCase();
 }
 
@@ -674,7 +853,7 @@ static void caseLayoutTwice(long k, vh::Rng &r) {
     int n = (int) r.range(2, 9);
     // the first three layout cases of a run let wall-clock time pass between the two runs (> 1 s, so that a
     // time()-derived seed would differ) and start from coincident nodes (PseudoRandom is used to separate them)
-    bool slow = (k / 11) < 3;
+    bool slow = (k / 12) < 3;
     bool stacked = slow || r.coin(1, 3);       // all nodes start at the same position: the layout separates them with its PseudoRandom
     for (int i = 0; i < n; ++i) {
         double x = stacked ? 5.0 : (double) r.range(0, 40), y = stacked ? 5.0 : (double) r.range(0, 40);
@@ -732,7 +911,7 @@ int main(int argc, char **argv) {
     g_big = thorough;
     long rounds = (thorough ? 1200 : 250) * a.scale;
     if (a.n >= 0) rounds = a.n;
-    const int NCLASS = 11;       // caseLayoutTwice relies on this (k / 11 = round)
+    const int NCLASS = 12;       // caseLayoutTwice relies on this (k / 12 = round)
     for (long k = 0; k < rounds * NCLASS; ++k) {
         if (!a.want(k)) continue;
         vh::Rng r = vh::caseRng(a.seed, (uint64_t) k);
@@ -747,7 +926,8 @@ int main(int argc, char **argv) {
         case 7: caseRouteSymmetry(k, r, false); break;
         case 8: caseRouteSymmetry(k, r, true); break;
         case 9: caseVpscTranslate(k, r); break;
-        default: caseVpscPermute(k, r); break;
+        case 10: caseVpscPermute(k, r); break;
+        default: caseRouteSymmetryDirs(k, r, (k / NCLASS) % 3 != 2); break;      // 2 strict : 1 arbitrary
         }
     }
     return 0;
